@@ -65,7 +65,7 @@ pub fn leader(rt: &tokio::runtime::Runtime, case: Value) -> Value {
     res
 }
 
-fn resp_json(r: &d_engine_proto::server::replication::AppendEntriesResponse) -> Value {
+pub fn resp_json(r: &d_engine_proto::server::replication::AppendEntriesResponse) -> Value {
     use d_engine_proto::server::replication::append_entries_response::Result as R;
     match &r.result {
         Some(R::Success(s)) => json!([0, r.term, lid_json(s.last_match.clone())]),
